@@ -103,3 +103,66 @@ def judge(case, impl_out, spec):
 
 def nontrivial(case, impl_out):
     return any(c in case.line.split("\t")[1] for c in "023.*")
+
+
+def inplace_recheck(run):
+    """One annotation OBJECT and one array OBJECT, checked, changed IN PLACE (rank, an axis, the dtype), checked again with nothing else
+    in between: the second verdict is the verdict of a fresh array of the new shape / dtype.  numpy (`a.shape = …`, `a.dtype = …`,
+    `ndarray.resize`) and torch (`unsqueeze_`, `t_`, `resize_`); jax arrays cannot change."""
+    import numpy as np
+    import torch
+
+    import impl
+    from framework import Case, Finding
+
+    dltype = impl.dltype
+
+    def verdict(ann, t):
+        try:
+            ann.check(t)
+            return "ok"
+        except dltype.DLTypeError as e:
+            return type(e).__name__
+        except Exception as e:  # noqa: BLE001
+            return "EXC " + type(e).__name__
+
+    def np_shape(a, s):
+        a.shape = s
+
+    def np_dtype(a, d):
+        a.dtype = d
+
+    changes = [
+        ("numpy", lambda: np.zeros((2, 3), np.float32), [("a.shape = (3, 2)", lambda a: np_shape(a, (3, 2))), ("a.shape = (6,)", lambda a: np_shape(a, (6,))), ("a.shape = (1, 2, 3)", lambda a: np_shape(a, (1, 2, 3))),
+                                                         ("a.dtype = int32", lambda a: np_dtype(a, np.int32)), ("a.resize((2, 4))", lambda a: a.resize((2, 4), refcheck=False)), ("nothing", lambda a: None)]),
+        ("torch", lambda: torch.zeros(2, 3), [("x.unsqueeze_(0)", lambda x: x.unsqueeze_(0)), ("x.t_()", lambda x: x.t_()), ("x.resize_(2, 4)", lambda x: x.resize_(2, 4)), ("x.resize_(6)", lambda x: x.resize_(6)),
+                                               ("x.squeeze_() after unsqueeze_(2)", lambda x: x.unsqueeze_(2)), ("nothing", lambda x: None)]),
+    ]
+    n = 0
+    for lib, mk, chs in changes:
+        for spec in ("a b", "2 3", "2 b", "*g 3", "... 3", "a=2 b=3", "n m=3"):
+            for cname in ("FloatTensor", "Float32Tensor", "TensorTypeBase"):
+                for what, ch in chs:
+                    ann = getattr(dltype, cname)[spec]
+                    t = mk()
+                    first = verdict(ann, t)
+                    try:
+                        ch(t)
+                    except Exception:  # noqa: BLE001  (the library refuses this change of this array: nothing to re-check)
+                        continue
+                    again = verdict(ann, t)
+                    fresh_ann = getattr(dltype, cname)[spec]
+                    fresh_t = (np.zeros(t.shape, t.dtype) if lib == "numpy" else torch.zeros(tuple(t.shape), dtype=t.dtype))
+                    want = verdict(fresh_ann, fresh_t)
+                    n += 1
+                    if again != want:
+                        run.findings.append(Finding("failing-input", f"{cname}[{spec!r}] checked a {lib} array of shape (2, 3) ({first}), the array was changed in place ({what}: now {tuple(t.shape)} {t.dtype}) and "
+                                                    f"checked again by the same annotation object: {again}; a fresh array of that shape and dtype gives {want}",
+                                                    Case(f"INPLACE\t{cname}\t{spec}\t{lib}\t{what}", "inplace"), again, "", want))
+    run.n_cases += n
+    run.n_distinct_nontrivial += n
+    run.dist["in-place change between two checks"] += n
+
+
+def custom(run, tier):
+    inplace_recheck(run)
